@@ -14,6 +14,7 @@ Python exceptions are `Err`; the generator `iter_logical_records` yields records
 (`none`) or raises (`some e`): `iterLR : Bytes → List LR × Option Err`.
 -/
 import TD.C01.Spec
+import TD.C01.Regex
 import TD.Gen.C01Sul
 
 namespace TD.C01
@@ -30,52 +31,12 @@ inductive Err where
   | index         -- IndexError (`by[-1]` on an empty body)
   | lrshSeq       -- ExceptionLogicalRecordSegmentHeaderSequence (C02, position scan)
   | fuel          -- model only: loop fuel exhausted (unreachable: fuel = file length + 1, every segment read advances ≥ 4)
-  | regexChanged  -- model only: the label regular expressions in the source are not the ones modelled
+  | regexChanged  -- model only (unused since the expressions are interpreted from the generated data)
   deriving DecidableEq, Repr
 
 /-! ### Storage unit label -/
 
-/-- The regular expressions this model transcribes, as bytes:
-`^[0 ]*([1-9][0-9]*)$`, `^(V1.\d\d)$`, `^(RECORD)$`, `^[0 ]*([1-9][0-9]*)$`.  `TD.Gen.C01Sul` is regenerated from the
-source on every run; if they differ `sulParse` refuses to answer (and `sul_roundtrip` no longer proves). -/
-def modelledRegexes : List (List Nat) :=
-  [[94, 91, 48, 32, 93, 42, 40, 91, 49, 45, 57, 93, 91, 48, 45, 57, 93, 42, 41, 36],
-   [94, 40, 86, 49, 46, 92, 100, 92, 100, 41, 36],
-   [94, 40, 82, 69, 67, 79, 82, 68, 41, 36],
-   [94, 91, 48, 32, 93, 42, 40, 91, 49, 45, 57, 93, 91, 48, 45, 57, 93, 42, 41, 36]]
-
-def regexesAsModelled : Bool :=
-  [Gen.C01Sul.reSeq, Gen.C01Sul.reVersion, Gen.C01Sul.reStructure, Gen.C01Sul.reMaxLen] == modelledRegexes
-  && Gen.C01Sul.size == 80
-
-def mFill (c : Nat) : Bool := c == 48 || c == 32          -- [0 ]
-def mDigit (c : Nat) : Bool := 48 ≤ c && c ≤ 57           -- [0-9]  (also `\d` of a bytes pattern)
-
-/-- `$` without MULTILINE: at the end, or just before a newline that is the last character -/
-def atDollar (r : Bytes) : Bool := r == [] || r == [10]
-
-/-- `re.match(b'^[0 ]*([1-9][0-9]*)$', f)` → group 1.  The expression is deterministic (the classes that follow each
-star are disjoint from the starred class), so the greedy scan is the backtracking result. -/
-def scanNum (f : Bytes) : Option Bytes :=
-  match f.dropWhile mFill with
-  | [] => none
-  | d :: t =>
-    if 49 ≤ d ∧ d ≤ 57 then
-      if atDollar (t.dropWhile mDigit) then some (d :: t.takeWhile mDigit) else none
-    else none
-
-/-- `re.match(b'^(V1.\d\d)$', f)` → group 1 (`.` is any byte but newline) -/
-def scanVersion (f : Bytes) : Option Bytes :=
-  match f with
-  | 86 :: 49 :: c :: a :: b :: r =>
-    if c ≠ 10 ∧ mDigit a ∧ mDigit b ∧ atDollar r then some [86, 49, c, a, b] else none
-  | _ => none
-
-/-- `re.match(b'^(RECORD)$', f)` → group 1 -/
-def scanStructure (f : Bytes) : Option Bytes :=
-  match f with
-  | 82 :: 69 :: 67 :: 79 :: 82 :: 68 :: r => if atDollar r then some [82, 69, 67, 79, 82, 68] else none
-  | _ => none
+def mDigit (c : Nat) : Bool := 48 ≤ c && c ≤ 57           -- an ASCII digit
 
 /-- `int(b'123')` for ASCII digits -/
 def ofDec (ds : Bytes) : Nat := ds.foldl (fun a d => a * 10 + (d - 48)) 0
@@ -88,21 +49,22 @@ structure SUL where
   ident : Bytes
   deriving DecidableEq, Repr
 
-/-- `StorageUnitLabel.__init__(by)`; every failure is `ExceptionStorageUnitLabel` (the TIF test
-`by[14:] == TIF_FILE_PREFIX` compares 66 bytes with 14 and is never true). -/
+/-- `StorageUnitLabel.__init__(by)`; every failure is `ExceptionStorageUnitLabel`.  The four `re.match` calls are
+`reMatch` on the expressions found in the source (`TD.Gen.C01Sul`, regenerated on every run), `SIZE` likewise; the
+slices `by[:4]`, `by[4:9]`, `by[9:15]`, `by[15:20]`, `by[20:]` are transcribed.  (The TIF test
+`by[14:] == TIF_FILE_PREFIX` compares 66 bytes with 14 and is never true.) -/
 def sulParse (by_ : Bytes) : Option SUL :=
-  if !regexesAsModelled then none else
-  if by_.length ≠ 80 then none else
-  match scanNum (by_.take 4) with
+  if by_.length ≠ Gen.C01Sul.size then none else
+  match reMatch Gen.C01Sul.reSeqItems (by_.take 4) with
   | none => none
   | some g1 =>
-    match scanVersion ((by_.drop 4).take 5) with
+    match reMatch Gen.C01Sul.reVersionItems ((by_.drop 4).take 5) with
     | none => none
     | some v =>
-      match scanStructure ((by_.drop 9).take 6) with
+      match reMatch Gen.C01Sul.reStructureItems ((by_.drop 9).take 6) with
       | none => none
       | some st =>
-        match scanNum ((by_.drop 15).take 5) with
+        match reMatch Gen.C01Sul.reMaxLenItems ((by_.drop 15).take 5) with
         | none => none
         | some g2 => some ⟨ofDec g1, v, st, ofDec g2, by_.drop 20⟩
 
